@@ -62,6 +62,12 @@ Known(d) == d.cls \in {"undefined", "unused", "unused_spec", "duplicate_def", "p
 BadLocation == { k \in 1..Len(Diags) : Known(Diags[k]) /\ ~Located(Diags[k]) }
 BadSnippet == { k \in 1..Len(Diags) : ~Diags[k].snip }
 \* the two lines of a duplicate-definition diagnostic name two different definitions
+\* the two literals of a "spaces inside a word" diagnostic are neighbours: the first is the last literal before the blank, the
+\* second the first literal after it - nothing but parentheses / brackets lies between them
+Between(i, j) == { T(k).kind : k \in (i + 1)..(j - 1) }
+SpacesPairBad == \E k \in 1..(Len(Diags) - 1) : Diags[k].cls = "subword_spaces" /\ Diags[k + 1].cls = "subword_spaces_2" /\
+                   ~\E i \in At(Diags[k]) \cap Fits(Diags[k]) : \E j \in At(Diags[k + 1]) \cap Fits(Diags[k + 1]) :
+                        i < j /\ Between(i, j) \subseteq {"lparen", "rparen", "lbrack", "rbrack"}
 DupSame == \E k \in 1..(Len(Diags) - 1) : Diags[k].cls = "duplicate_def" /\ Diags[k + 1].cls = "previous_def" /\
               Diags[k].line = Diags[k + 1].line /\ Diags[k].col = Diags[k + 1].col
 
@@ -76,7 +82,7 @@ WarnOnce == Cardinality(WarnIdx) = Cardinality(ObservedW)
 Clean == Structural(case) = {} /\ ~GrayPlainOfSpecialised(case)
 
 Aspects ==
-  (IF BadLocation # {} \/ DupSame THEN {"location"} ELSE {}) \cup
+  (IF BadLocation # {} \/ DupSame \/ SpacesPairBad THEN {"location"} ELSE {}) \cup
   (IF BadSnippet # {} THEN {"snippet"} ELSE {}) \cup
   (IF Clean /\ Obs(case).exit = 0 /\ ObservedW # ExpectedW THEN {"warning_set"} ELSE {}) \cup
   (IF Clean /\ Obs(case).exit = 0 /\ ~WarnOnce THEN {"warning_repeated"} ELSE {}) \cup
